@@ -2,6 +2,9 @@ module verifharness
 
 go 1.15
 
-require github.com/richardmorrey/flap v0.0.0
+require (
+	github.com/richardmorrey/flap v0.0.0
+	github.com/syndtr/goleveldb v1.0.1-0.20210305035536-64b5b1c73954
+)
 
 replace github.com/richardmorrey/flap => /repo
